@@ -52,6 +52,10 @@ fn palette_forms() -> Vec<Result<String, Cell>> {
         Ok("#t".into()),
         Ok("(- 1/2 1/2)".into()),
         Ok("(- (expt 2 64) (expt 2 64))".into()),
+        Ok("(list 'quote car)".into()),
+        Ok("(list let (call/cc (lambda (k) k)) (lambda (x) x))".into()),
+        Ok("(vector 1 car)".into()),
+        Ok("(integer->char 1636)".into()),
     ]
 }
 
@@ -225,6 +229,21 @@ pub fn main(args: &[String]) -> Result<(), String> {
                         if msg.starts_with("verif-") { "ok".to_string() } else { format!("panic: {}", msg.chars().take(80).collect::<String>()) }
                     }
                 });
+                // the highlighter at every byte position of the text and two positions beyond it
+                let hl = marwood::syntax::ReplHighlighter::new();
+                let mut hres = "ok".to_string();
+                for cur in 0..=text.len() + 2 {
+                    let r1 = catch_unwind(AssertUnwindSafe(|| hl.highlight(&text, cur).len()));
+                    let r2 = catch_unwind(AssertUnwindSafe(|| hl.highlight_check(&text, cur)));
+                    for p in [r1.err(), r2.err()].into_iter().flatten() {
+                        let msg = p.downcast_ref::<&str>().map(|x| x.to_string()).or(p.downcast_ref::<String>().cloned()).unwrap_or_default();
+                        hres = format!("panic at cursor {}: {}", cur, msg.chars().take(60).collect::<String>());
+                    }
+                    if hres != "ok" {
+                        break;
+                    }
+                }
+                rec["highlight"] = json!(hres);
                 // the sliced evaluation may have been left unfinished: start from a fresh VM
                 s = fresh(&cfg);
                 writeln!(o, "{}", rec).map_err(|e| e.to_string())?;
